@@ -135,6 +135,57 @@ Proof.
   all: try (exfalso; match goal with W : aawake (A ?s ?a) = true |- _ => apply iH10 in W; congruence end).
 Qed.
 
+Lemma pres_H11 s ac s' : Inv s -> step s ac = Some s' ->
+  forall c a, ahome (A s' c) = HCan a -> exists f, Cn s' a = Cn3 f c.
+Proof.
+  intros I H. pose proof (H11 _ _ _ _ I) as iH11.
+  step_cases H; facts I; opn; dm; intros c0 a0 Hh; simp; upds; fin.
+  all: try (destruct (iH11 _ _ Hh) as [f' Hf']; exists f'; fin).
+Qed.
+
+Lemma pres_H12 s ac s' : Inv s -> step s ac = Some s' ->
+  forall a f c, Cn s' a = Cn3 f c -> ahome (A s' c) = HCan a.
+Proof.
+  intros I H. pose proof (H12 _ _ _ _ I) as iH12.
+  step_cases H; facts I; opn; dm; intros a0 f0 c0 Hs; simp; upds; fin.
+  all: try (pose proof (iH12 _ _ _ Hs); fin).
+Qed.
+
+Lemma pres_H13 s ac s' : Inv s -> step s ac = Some s' ->
+  forall c k, ahome (A s' c) = HKCan k -> k < nexts s' /\ exists f, spc_ (Sb s' k) = SCan4 f c.
+Proof.
+  intros I H. pose proof (H13 _ _ _ _ I) as iH13.
+  step_cases H; facts I; opn; dm; intros c0 k0 Hh; simp; upds; fin.
+  all: try (destruct (iH13 _ _ Hh) as (? & f' & ?); split; [lia|]; exists f'; fin; dj).
+Qed.
+
+Lemma pres_H14 s ac s' : Inv s -> step s ac = Some s' ->
+  forall k f c, k < nexts s' -> spc_ (Sb s' k) = SCan4 f c -> ahome (A s' c) = HKCan k.
+Proof.
+  intros I H. pose proof (H14 _ _ _ _ I) as iH14. pose proof (F1 _ _ _ _ I) as iF1.
+  step_cases H; facts I; opn; dm; intros k0 f0 c0 Lk Hk; simp; upds; fin.
+  all: try (assert (Lk' : k0 < nexts s) by lia; pose proof (iH14 k0 _ _ Lk' Hk); fin).
+  all: try solve [dj].
+Qed.
+
+Lemma pres_HC s ac s' : Inv s -> step s ac = Some s' ->
+  forall a f c, Cn s' a = Cn3 f c -> afd (A s' c) = f.
+Proof.
+  intros I H. pose proof (HC _ _ _ _ I) as iHC.
+  step_cases H; facts I; opn; dm; intros a0 f0 c0 Hs; simp; upds; fin.
+  all: try (exfalso; pose proof (H12 _ _ _ _ I _ _ _ Hs); fin; congruence).
+  all: try (pose proof (iHC _ _ _ Hs); fin).
+Qed.
+
+Lemma pres_HK4 s ac s' : Inv s -> step s ac = Some s' ->
+  forall k f c, k < nexts s' -> spc_ (Sb s' k) = SCan4 f c -> afd (A s' c) = f.
+Proof.
+  intros I H. pose proof (HK4 _ _ _ _ I) as iHK. pose proof (F1 _ _ _ _ I) as iF1.
+  step_cases H; facts I; opn; dm; intros k0 f0 c0 Lk Hk; simp; upds; fin.
+  all: try (exfalso; assert (Lk' : k0 < nexts s) by lia; pose proof (H14 _ _ _ _ I k0 _ _ Lk' Hk); fin; congruence).
+  all: try (assert (Lk' : k0 < nexts s) by lia; pose proof (iHK k0 _ _ Lk' Hk); fin).
+Qed.
+
 Lemma pres_HF s ac s' : Inv s -> step s ac = Some s' ->
   forall k c, k < nexts s' -> spc_ (Sb s' k) = SFastT c -> afd (A s' c) = sfd (Sb s' k).
 Proof.
@@ -219,6 +270,12 @@ Proof.
   - exact (pres_H8 _ _ _ I H).
   - exact (pres_H9 _ _ _ I H).
   - exact (pres_H10 _ _ _ I H).
+  - exact (pres_H11 _ _ _ I H).
+  - exact (pres_H12 _ _ _ I H).
+  - exact (pres_H13 _ _ _ I H).
+  - exact (pres_H14 _ _ _ I H).
+  - exact (pres_HC _ _ _ I H).
+  - exact (pres_HK4 _ _ _ I H).
   - exact (pres_HF _ _ _ I H).
   - exact (pres_HS _ _ _ I H).
   - exact (pres_J _ _ _ I H).
